@@ -1,6 +1,7 @@
 package datafile
 
 import (
+	"bytes"
 	"encoding/binary"
 	"github.com/valyala/bytebufferpool"
 	"hash/crc32"
@@ -126,6 +127,33 @@ func DecodeLogRecord(data []byte) *LogRecord {
 		Value:   value,
 		BatchID: batchID,
 	}
+}
+
+// 判断编码后的日志记录中的 key 是否为指定 key
+func logRecordKeyEquals(data []byte, key []byte) bool {
+	if len(data) < 1 {
+		return false
+	}
+	idx := 1
+	keySize, n := binary.Varint(data[idx:])
+	if n <= 0 {
+		return false
+	}
+	idx += n
+	_, n = binary.Varint(data[idx:])
+	if n <= 0 {
+		return false
+	}
+	idx += n
+	_, n = binary.Uvarint(data[idx:])
+	if n <= 0 {
+		return false
+	}
+	idx += n
+	if keySize != int64(len(key)) || idx+len(key) > len(data) {
+		return false
+	}
+	return bytes.Equal(data[idx:idx+len(key)], key)
 }
 
 func DecodeLogRecordValue(data []byte) []byte {
